@@ -1,5 +1,5 @@
 """C05 — fast paths and diagnostic build features are unobservable."""
-import vlib, gen, gen_prog, runlib
+import vlib, gen, gen_prog, runlib, gen_fastops
 from gen_prog import FLAG, run_line, parse_obs, head
 
 LEVEL = "other"
@@ -7,21 +7,61 @@ FAMILY = "run"
 
 MANIFEST = {
  "level": "other",
- "text": "Partly proved, partly explored. Proved (Props/C05.v): the inline small-integer path lookup (traverse_path_fast) equals the generic byte-string lookup (traverse_path) on the canonical encoding - node, cost and error - for every index below 2^32 (inline atoms are below 2^26) and every environment, incl. the extra leading-zero byte at 7/15/23/31 path bits, and in the form the evaluator uses it (an atom whose small_number is v is looked up the same either way); the precomputed sha256(1 || n) table re-read from more_ops.rs by the translator has 37 entries, each equal to the Gallina SHA-256 of (1 :: canonical bytes of n) (finite, complete, by computation). Documentation, not a theorem: the model implements each arithmetic operator once, on unbounded integers, which is what both the u64/i64 fast paths and the bignum paths must compute; the model has no instrumentation. Not proved: that the Rust fast-path arithmetic (checked_add fall-backs, limb counting on u64) equals the generic path, and that the counters / pre-eval features are observe-only - both decided by building the harness three times (default, no-fastpath, counters+pre-eval with an observe-only callback) from the current source and comparing every run across the binaries (result, cost, error, allocator counts) and with the model.",
+ "text": "Partly proved, partly explored. Proved (Props/C05.v), all on the model: (1) the inline small-integer path lookup (traverse_path_fast) equals the generic byte-string lookup (traverse_path) on the canonical encoding - node, cost and error - for every index below 2^32 (inline atoms are below 2^26) and every environment, incl. the extra leading-zero byte at 7/15/23/31 path bits, and in the form the evaluator uses it; (2) the precomputed sha256(1 || n) table re-read from more_ops.rs by the translator has 37 entries, each equal to the Gallina SHA-256 of (1 :: canonical bytes of n) (finite, complete, by computation); (3) the five operator bodies of more_ops.rs that contain a no-fastpath region (op_sha256, op_add, op_subtract, op_multiply, op_gr) are transcribed twice in Model/OpsFast.v - as the default build compiles them and as the no-fastpath build does - over argument lists in which every operand carries its allocator representation (inline small atom below 2^26 / heap atom holding ANY bytes, small canonical integers included / pair), with the u64 checked_add and i64 checked_sub totals, the limbs of the u64/i64 total, new_u64/new_i64, len_for_value, the table index and the order of cost accumulation, budget checks (a CostExceeded inside the fast closure is returned) and fall-back (restart of the generic loop from the saved input with the base cost) written out; each of the ten transcriptions equals the single tree-store operator of the model on the denoted argument list - same cost and atom or same error - for every flag set, budget, argument list and terminator, so the two builds agree on every operator call (C05_*_fast, C05_*_nofast); new_u64/new_i64 and new_number leave the allocator model in the same state (C05_new_u64, C05_new_i64). Not proved: that the transcriptions are what rustc compiles from more_ops.rs under either feature set (tied by the correspondence run `fastops`: the real operator functions of the default and the no-fastpath binaries on arguments built inline or on the heap, against both transcriptions, plus the translator re-reading the table and the literal of op_sha256's NIL return); u64 cost arithmetic is on unbounded naturals; whole runs and the counters / pre-eval features are not modelled - decided by building the harness three times (default, no-fastpath, counters+pre-eval with an observe-only callback) from the current source and comparing every run and every operator call across the binaries (result, cost, error, allocator counts) and with the model.",
  "note": vlib.NOTE_COMMON + " Level 'other': see text.",
- "technique": "Coq proof (fast path lookup = generic lookup; finite table check by vm_compute) + three separately built harness binaries compared with each other and with the model",
+ "technique": "Coq proof (fast path lookup = generic lookup; representation-level transcriptions of the default and no-fastpath operator bodies = the generic operator, by induction over the argument list; finite table check by vm_compute) + three separately built harness binaries compared with each other and with the model, on whole runs and on direct operator calls with chosen argument representations",
 }
+
+
+def _strip(o):
+    """the part of a fastops observation that the model also produces"""
+    return vlib.canon_default(None if o is None else o.split(" | ")[0])
+
+
+def run_fastops(ctx):
+    """direct operator calls with chosen argument representations: default vs no-fastpath vs
+    counters+pre-eval binaries (everything observed, incl. allocator counter growth and whether
+    the result node is inline), and each binary against its transcription in Model/OpsFast.v"""
+    cs = gen_fastops.cases(ctx)
+    fast = [gen_fastops.line("fast", c) for c in cs]
+    nofast = [gen_fastops.line("nofast", c) for c in cs]
+    d = vlib.run_impl("fastops", fast, "default")
+    nf = vlib.run_impl("fastops", fast, "nofast")
+    ins = vlib.run_impl("fastops", fast, "instr")
+    for c, l, a, b, e in zip(cs, fast, d, nf, ins):
+        ok = (a or "").startswith("ok")
+        ctx.histogram("fastops_operator", c[0])
+        ctx.histogram("fastops_outcome", (a or "none").split(" | ")[0].split(" ")[0] + ("" if ok else " " + (a or "none").split(" ")[1].split("[")[0]))
+        reprs = "".join(sorted(set(x[0] for x in c[4]))) or "-"
+        ctx.histogram("fastops_operand_representations", reprs)
+        for name, o in (("no-fastpath", b), ("counters+pre-eval features", e)):
+            if o != a:
+                ctx.violation("the %s build gives a different result for a direct operator call" % name,
+                              {"family": "fastops", "case": l[:3000], "impl": o, "default_build": a, "variant": name})
+        if (a or "").startswith("panic"):
+            ctx.violation("operator call panics", {"family": "fastops", "case": l[:3000], "impl": a})
+    nt = lambda c, m, i: (i or "").startswith("ok")
+    ctx.correspond("fastops", fast, variant="default", canon=_strip, name="fastops:fast", nontrivial=nt)
+    ctx.correspond("fastops", nofast, variant="nofast", canon=_strip, name="fastops:nofast", nontrivial=nt)
+    ctx.correspond("fastops", [gen_fastops.line("gen", c) for c in cs[::2]], variant="default", canon=_strip,
+                   name="fastops:generic", nontrivial=nt)
 
 
 def run(ctx):
     r = ctx.rng
     ctx.rule = ("generated programs concentrated on all-small-integer argument lists, sums/products crossing 2^31, 2^32, 2^63, 2^64, "
                 "(sha256 1 n) for n around 36/37, path atoms at every bit length 1..33 in inline and heap form; every line runs on "
-                "the default, no-fastpath and counters+pre-eval builds; non-trivial = distinct line that succeeds")
+                "the default, no-fastpath and counters+pre-eval builds; non-trivial = distinct line that succeeds. Family fastops: "
+                "direct calls of op_add/op_subtract/op_multiply/op_gr/op_sha256 on argument lists whose operands are built inline or "
+                "on the heap (all-inline lists with one operand moved to the heap / made non-small / a pair at every position, heap "
+                "atoms holding small canonical integers and their non-canonical spellings, totals leaving u32 and crossing 2^63/2^64/"
+                "i64 min/max, budgets at every check point +-1, (sha256 1 n) n=0..40 in every representation, sizes 255/256/257 and "
+                "1024/1025 limbs for * with and without LIMITS); non-trivial = distinct call that succeeds")
     ctx.explanation = "see MANIFEST level text"
     ctx.proofs()
     if not ctx.build(variants=("default", "nofast", "instr")):
         return
+    run_fastops(ctx)
     from gen_prog import q, op, i2a, lst
     n = ctx.scale(400, 6000)
     pool = runlib.program_pool(ctx, n, n_unknown=ctx.scale(20, 100), flags_for_guards=(0,))
